@@ -48,7 +48,7 @@ def check(tier: str, replay: Optional[str] = None) -> int:
             v.fail(clause, {"machine": "Compu", **compu.shape(cm), "detail": detail, "record": slim})
     print(f"[C07] clause failures: {dict(per_clause)}", flush=True)
     if inj == 0 or mon == 0 or len(cats) < 8:
-        raise tlc.MachineryError(f"vacuity: injective={inj} moncont={mon} categories={dict(cats)}")
+        v.vacuous(f"vacuity: injective={inj} moncont={mon} categories={dict(cats)}")
     cov = {"states": res.distinct, "transitions": res.generated, "traces_validated_against_impl": len(recs),
            "evaluations": evals, "distinct_nontrivial": len(recs),
            "rule": "one TLC state per compu method configuration (category x type pair x coefficients x limits x interval "
